@@ -13,7 +13,8 @@ P["C01"] = dict(
     claimed=True,
     technique="static analysis: exact rational series-reversion identities over the HIR constant tables; MIR "
               "dataflow rules on the registered fwd/inv pairs and the direction dispatch",
-    decides=["R-INV-DECLARED: `<operator> inv` reaches handle_op_inversion for every invertible built-in",
+    decides=["R-K0-LINEAR: for merc, lcc, btmerc, butm the forward easting / northing are exactly offset + k_0 * G (G free of k_0, offset exactly x_0 / y_0), and in the inverse every arithmetic expression of the input depends on it only through (input - offset) / k_0 (exact rational-function identities)",
+             "R-INV-DECLARED: `<operator> inv` reaches handle_op_inversion for every invertible built-in",
              
         "T-SERIES: for every PolynomialCoefficients table, inv is the exact series reversion of fwd to n^6 (both orders)",
         "R-DISPATCH: Op::apply maps (inverted, direction) to the fwd/inv slot by the documented truth table; "
@@ -42,7 +43,10 @@ P["C01"] = dict(
 P["C05"] = dict(
     claimed=True,
     technique="static analysis: exact rational identities between the Krueger, rectifying and conformal series tables",
-    decides=["T-SERIES-CROSS: TM.fwd = RECT.fwd o CONF.inv and TM.inv = CONF.fwd o RECT.inv exactly to n^6 "
+    decides=["R-KEY-DECLARED: every key (and indexed accessor, e.g. ellps(1)) an operator or its constructor reads is declared by its gamut or stored by the constructor - the user's ellipsoid reaches the projection",
+             "R-LATTS-K0 (even): a southern lat_ts is not ignored",
+             "R-K0-LINEAR: for merc, lcc, btmerc, butm the forward easting / northing are exactly offset + k_0 * G (G free of k_0, offset exactly x_0 / y_0), and in the inverse every arithmetic expression of the input depends on it only through (input - offset) / k_0 (exact rational-function identities)",
+             "T-SERIES-CROSS: TM.fwd = RECT.fwd o CONF.inv and TM.inv = CONF.fwd o RECT.inv exactly to n^6 "
              "(northing on the central meridian is the scaled meridian arc)",
              "R-SIGN-SLICE: laea's polar aspect selection depends on the sign of lat_0 (all aspects reachable)",
              "R-DIMENSION: (units-of-measure inference) every addition, subtraction and comparison in the ellipsoid geometry and in the operators with documented tuple conventions joins quantities of one physical dimension, transcendental functions get dimensionless arguments, and written tuple elements have the documented dimension (length / angle / time)",
@@ -62,7 +66,8 @@ P["C06"] = dict(
     claimed=True,
     technique="static analysis: exact checks of the ellipsoid table (f64 grammar, uniqueness, golden a and 1/f), "
               "series reversion identities, meridian-arc coefficients = binom(1/2,k)^2",
-    decides=["R-CURVATURE-MEANS: combined radii of curvature satisfy their defining identities in the two principal radii",
+    decides=["R-TABLE-LOOKUP-EXACT: Ellipsoid::named and TriaxialEllipsoid::named look names up by equality",
+             "R-CURVATURE-MEANS: combined radii of curvature satisfy their defining identities in the two principal radii",
              "T-ELLPS: every row parses, is unique, equals the published a and 1/f; gamut defaults name rows",
              "T-SERIES: auxiliary-latitude series pairs are exact reversions to n^6",
              "T-MERIDIAN: MERIDIAN_ARC_COEFFICIENTS[k] = binom(1/2,k)^2",
@@ -83,7 +88,9 @@ P["C06"] = dict(
 P["C11"] = dict(
     claimed=True,
     technique="static analysis: exact checks of the unit and adaptor tables from HIR constants",
-    decides=["R-GUARD-MATCH-AGREE: adapt's designator guard accepts exactly the characters the designator match has arms for, and tests the value that is matched",
+    decides=["R-UNITCONVERT-WIRING (no partial by-pass): no return by-passes the per-tuple loop on the strength of one of the two factors alone",
+             "T-DESIGNATORS: e n u f w s d p map to +1 +2 +3 +4 -1 -2 -3 -4",
+             "R-GUARD-MATCH-AGREE: adapt's designator guard accepts exactly the characters the designator match has arms for, and tests the value that is matched",
              "R-DEDUP-SORTED: adapt / axisswap / unitconvert de-duplicate no vector (Vec::dedup*) without a dominating sort of the same vector (duplicate-axis detection sees non-adjacent duplicates)",
              "T-UNITS: unit names unique over linear++angular (first-hit lookup), multiplier = own factor string = "
              "published factor", "T-ADAPTORS: the 8 documented adaptor macros, registered by both contexts",
@@ -126,7 +133,8 @@ P["C02"] = dict(
 P["C07"] = dict(
     claimed=True,
     technique="static analysis: loop-carried-state and element-preservation dataflow on the Helmert/Molodensky loops",
-    decides=["R-LOOP-CARRIED on helmert_common: parameters are evaluated at each tuple's own epoch",
+    decides=["R-FLAG-COVERS: the decisions to set helmert's `dynamic` and `rotated` flags mention every stored quantity the apply function uses under that flag (DT, DR, DS; R, DR)",
+             "R-LOOP-CARRIED on helmert_common: parameters are evaluated at each tuple's own epoch",
              "R-ELEMENT-PRESERVE: helmert and molodensky never change the fourth coordinate",
              "R-ONCE: fixing t_obs advances T, R (per axis) and S (once) by their rates exactly once",
              "R-TRANSPOSE: the position_vector and coordinate_frame matrices are element-wise transposes",
@@ -149,7 +157,9 @@ P["C07"] = dict(
 P["C08"] = dict(
     claimed=True,
     technique="static analysis: per-iteration typestate (written x counted) on the grid operators' loops",
-    decides=["R-GRIDS-INDEX-GUARD: the first grid of the list is consulted only when the list is non-empty",
+    decides=["R-GRID-INVARIANT reads guards merged into disjunctions and stored booleans (guards.py)",
+             "R-NULL-AFTER-STRIP: gridshift, deformation and deflection compare the grid name with `null` after removing the `@` prefix",
+             "R-GRIDS-INDEX-GUARD: the first grid of the list is consulted only when the list is non-empty",
              "R-COUNT-OR-NAN on gridshift/deformation/deflection: a point that gets no grid value is overwritten "
              "with NaN and not counted; every other path writes and counts",
              "R-TWO-PASS: all three grid searches (grids_at, deformation fwd/inv) try margin 0 then 0.5 in the outer "
@@ -175,7 +185,8 @@ P["C10"] = dict(
     claimed=True,
     technique="static analysis: set-of-states typestate dataflow per loop iteration (written none/value/NaN x "
               "counted 0/1/2+), and element-wise value-graph comparison of written tuples with the tuple read",
-    decides=["R-STOMP-ALL: a whole-set failure leaves no finite element behind",
+    decides=["R-LIMIT-ON-PLANE: the transverse Mercator strip limit is tested, forward, on the value that is scaled into the written easting and, inverse, on an arithmetic function of the input",
+             "R-STOMP-ALL: a whole-set failure leaves no finite element behind",
              "R-COUNT-OR-NAN: on every path through one iteration of every per-tuple loop the tuple is (written or "
              "passed) and counted once, or overwritten with NaN and not counted",
              "R-EARLY-RETURN: every 'parameter missing => return 0' exit of an InnerOp is dead (key guaranteed)",
@@ -334,7 +345,9 @@ P["C13"] = dict(
     claimed=True,
     technique="static analysis: abstract interpretation of the value graph in a unit domain (deg/rad) and an additive "
               "polarity domain for the false origin; affine extraction of the UTM constants; sign-slice of aspect selection",
-    decides=["R-SIGN-CARRIER: the sign of a sexagesimal lon_0 / lat_0 / lat_ts is taken from the sign bit and the hemisphere letter on every returned value",
+    decides=["R-LATTS-K0 (even): the decision to derive k_0 from lat_ts does not depend on the sign of lat_ts",
+             "R-K0-LINEAR: for merc, lcc, btmerc, butm the forward easting / northing are exactly offset + k_0 * G (G free of k_0, offset exactly x_0 / y_0), and in the inverse every arithmetic expression of the input depends on it only through (input - offset) / k_0 (exact rational-function identities)",
+             "R-SIGN-CARRIER: the sign of a sexagesimal lon_0 / lat_0 / lat_ts is taken from the sign bit and the hemisphere letter on every returned value",
              "R-UNSIGNED-SUB: utm's zone arithmetic cannot underflow for zones 1..60",
              "R-UNIT-TYPESTATE: in the ten plane projections every degree-valued parameter (lat_*, lon_*, latc, lonc, "
              "alpha, gamma_c, lat_ts) is converted to radians exactly once before it meets arithmetic with coordinates, "
@@ -404,7 +417,11 @@ P["C14"] = dict(
     claimed=True,
     technique="static analysis: wiring rules between sibling implementations (contexts, adapt/axisswap/unitconvert, "
               "operators vs their parameter declarations) and exact series identities between tables of different origin",
-    decides=["R-CURVATURE-MEANS: the gaussian, mean and azimuthal radii of the curvature operator satisfy, as exact rational functions of M, N and sin/cos of the azimuth, R^2 = M N, R (M + N) = 2 M N and Euler's R (N cos^2 + M sin^2) = M N",
+    decides=["R-PROJ-PASSTHROUGH: Plain (which filters every definition through parse_proj) and Minimal see the same text for every Rust Geodesy definition",
+             "R-TABLE-LOOKUP-EXACT: the biaxial and triaxial constructors use the same (equality) predicate over the ellipsoid table",
+             "R-KEY-DECLARED (constructors, indexed accessors): a constructor does not read ellps(k), lat(k) ... for a key its gamut does not declare (it would always get the built-in default)",
+             "R-K0-LINEAR: for merc, lcc, btmerc, butm the forward easting / northing are exactly offset + k_0 * G (G free of k_0, offset exactly x_0 / y_0), and in the inverse every arithmetic expression of the input depends on it only through (input - offset) / k_0 (exact rational-function identities)",
+             "R-CURVATURE-MEANS: the gaussian, mean and azimuthal radii of the curvature operator satisfy, as exact rational functions of M, N and sin/cos of the azimuth, R^2 = M N, R (M + N) = 2 M N and Euler's R (N cos^2 + M sin^2) = M N",
              "R-CONTEXT-AGREE: Minimal and Plain provide the same globals, forward (direction, operands) unchanged to "
              "Op::apply of the stored operator, and hand the definition to Op::new unchanged (Plain: through parse_proj only)",
              "R-KEY-DECLARED: every parameter key an operator reads at apply time is declared by its gamut or stored by "
@@ -451,7 +468,8 @@ P["C16"] = dict(
 P["C17"] = dict(
     claimed=True,
     technique="static analysis: who-calls and dataflow rules on Plain::op and parse_proj (value graph, control dependence)",
-    decides=["R-PROJ-TIDY-INDEPENDENT: the k= -> k_0= repair is reached whichever way the a / rf repair is decided",
+    decides=["R-PROJ-PASSTHROUGH: a definition containing `|`, and one not containing `proj`, never reaches the translation (three-valued reachability over the guard)",
+             "R-PROJ-TIDY-INDEPENDENT: the k= -> k_0= repair is reached whichever way the a / rf repair is decided",
              "R-PROJ-PLUS: `+` is removed only where it starts a token (after white space or at the start of the text)",
              
         "R-PROJ-FILTER: Plain::op instantiates exactly what parse_proj returns for the definition it was given",
